@@ -220,5 +220,40 @@ def rule_adj(repo):
     return res
 
 
+def _written_blocks(repo, fname):
+    """block index patterns (row slice, col slice/int) written into the matrix built by a helper, following one level of
+    helper calls whose result is stored into a block or which provide the base matrix"""
+    f = repo.func(OP, fname)
+    inl = inline_straight(f.node)
+    blocks = set()
+    for bk, idx, val, st in inl.stores:
+        if isinstance(idx, ast.Tuple) and len(idx.elts) == 3:
+            blocks.add((src(idx.elts[1]).replace(' ', ''), src(idx.elts[2]).replace(' ', '')))
+    return blocks, inl
+
+
+def rule_blocks(repo):
+    res = RuleResult('C05.BLOCKS', 'Sim3: the algebra adjoint ad(x) and the group adjoint Adj(X) = exp(ad) are written block by block and share '
+                     'their block sparsity pattern (rotation-scale block, translation x rotation block, translation column, rotation block)', floor=2)
+    A, _ = _written_blocks(repo, 'Sim3_Adj')
+    a, inl = _written_blocks(repo, 'sim3_adj')
+    # blocks provided by a base matrix taken from a sibling helper count as written
+    f = repo.func(OP, 'sim3_adj')
+    for st, env in inl.log:
+        if isinstance(st, ast.Assign):
+            for c in paths.calls_in(st.value):
+                if dotted(c.func) == 'se3_adj':
+                    b2, _ = _written_blocks(repo, 'se3_adj')
+                    a |= {(r, cc.replace('3:', '3:6') if cc == '3:' else cc) for r, cc in b2}
+    res.inst({'function': 'Sim3_Adj', 'blocks': sorted(A)}, 'Adj')
+    res.inst({'function': 'sim3_adj', 'blocks': sorted(a)}, 'adj')
+    missing = sorted(A - a)
+    extra = sorted(a - A)
+    if missing or extra:
+        res.add(Finding('C05.BLOCKS', f, 'sim3_adj writes blocks %s while Sim3_Adj writes %s: missing %s, extra %s - ad and Adj of the same group must '
+                        'have the same block pattern' % (sorted(a), sorted(A), missing, extra), construct='blocks missing %s extra %s' % (missing, extra)))
+    return res
+
+
 def rules(repo, tier):
-    return [rule_fwd(repo), rule_retr_add(repo), rule_jinv(repo), rule_clone(repo), rule_dt(repo), rule_adj(repo)] + rule_jr(repo)
+    return [rule_fwd(repo), rule_retr_add(repo), rule_jinv(repo), rule_clone(repo), rule_dt(repo), rule_adj(repo), rule_blocks(repo)] + rule_jr(repo)
